@@ -55,12 +55,61 @@ func buildOverlay(repo, hdir string) (map[string][]byte, []string, map[string]st
 		pkgset["./"+dir] = true
 		return nil
 	})
+	if err != nil {
+		return nil, nil, nil, err
+	}
+	// seams: a one-line prologue inserted into selected functions of the real source (in memory only), so that a
+	// harness can substitute the platform boundary (sockets, dialing, protocol runners). The rest of the file is the
+	// repository's current text; a seam whose anchor line is gone is an error, never silently skipped.
+	seamOut := envOr("VERIF_SEAM_DIR", "")
+	if data, rerr := os.ReadFile(filepath.Join(hdir, "seams.json")); rerr == nil {
+		var seams []Seam
+		if jerr := json.Unmarshal(data, &seams); jerr != nil {
+			return nil, nil, nil, fmt.Errorf("seams.json: %v", jerr)
+		}
+		texts := map[string]string{}
+		for _, sm := range seams {
+			path := filepath.Join(repo, sm.File)
+			txt, ok := texts[path]
+			if !ok {
+				b, rerr := os.ReadFile(path)
+				if rerr != nil {
+					return nil, nil, nil, fmt.Errorf("seam %s: %v", sm.File, rerr)
+				}
+				txt = string(b)
+			}
+			if strings.Count(txt, sm.After) != 1 {
+				return nil, nil, nil, fmt.Errorf("seam anchor not found exactly once in %s: %q", sm.File, sm.After)
+			}
+			txt = strings.Replace(txt, sm.After, sm.After+"\n"+sm.Insert, 1)
+			txt += "\n" + sm.Decl + "\n"
+			texts[path] = txt
+		}
+		for path, txt := range texts {
+			ov[path] = []byte(txt)
+			if seamOut != "" {
+				cp := filepath.Join(seamOut, strings.ReplaceAll(strings.TrimPrefix(path, repo+"/"), "/", "_"))
+				if werr := os.WriteFile(cp, []byte(txt), 0o644); werr != nil {
+					return nil, nil, nil, werr
+				}
+				files[path] = cp
+			}
+		}
+	}
 	var pkgs []string
 	for p := range pkgset {
 		pkgs = append(pkgs, p)
 	}
 	sort.Strings(pkgs)
 	return ov, pkgs, files, err
+}
+
+// Seam describes one prologue insertion (see buildOverlay).
+type Seam struct {
+	File   string `json:"file"`
+	After  string `json:"after"`
+	Insert string `json:"insert"`
+	Decl   string `json:"decl"`
 }
 
 func loadProgram(repo, hdir string, extraPkgs []string) (*Engine, error) {
@@ -308,6 +357,7 @@ func cmdRun(args []string) {
 	solver := fs.String("solver", "z3-new", "solver")
 	smtlog := fs.String("smtlog", "", "log solver input")
 	cpuprof := fs.String("cpuprofile", "", "write cpu profile")
+	qms := fs.Int("qms", 0, "per-query timeout ms")
 	params := paramFlag{}
 	fs.Var(params, "p", "param k=v")
 	fs.Parse(args)
@@ -325,7 +375,7 @@ func cmdRun(args []string) {
 	e.verbose = *verbose
 	fmt.Printf("loaded in %.1fs\n", time.Since(t0).Seconds())
 	smtLogPath = *smtlog
-	job := e.runJob(JobSpec{Pkg: *pkg, Harness: *fn, Params: params, TimeoutS: *timeout, Solver: *solver}, loadKnown())
+	job := e.runJob(JobSpec{Pkg: *pkg, Harness: *fn, Params: params, TimeoutS: *timeout, Solver: *solver, QueryMs: *qms}, loadKnown())
 	out, _ := json.MarshalIndent(job.report(), "", " ")
 	fmt.Println(string(out))
 	if *verbose > 0 {
